@@ -19,7 +19,7 @@ from .. import vp, canon
 sys.path.insert(0, os.path.join(vp.VERIF, "tools"))
 import gen  # noqa: E402
 
-FACTS = ["file_codegen_src_string_rs", "file_codegen_src_rule_rs", "file_codegen_src_grammar_mod_rs", "grammar_ebnf"]
+FACTS = ["file_codegen_src_string_rs", "file_codegen_src_rule_rs", "file_codegen_src_grammar_mod_rs", "file_runtime_src_", "grammar_ebnf"]
 
 
 def nm(s):
